@@ -4,6 +4,7 @@ patch="$1"; shift
 cd /verif || exit 2
 git -C /repo diff --quiet || { echo "/repo is dirty"; exit 2; }
 git -C /repo apply "$patch" || exit 2
+rm -rf /tmp/vwork/evidence.keep && cp -r evidence /tmp/vwork/evidence.keep
 for id in "$@"; do
   ./bin/check "$id" --tier quick > /tmp/vwork/mut.out 2>&1; rc=$?
   tail -4 /tmp/vwork/mut.out
@@ -11,4 +12,5 @@ for id in "$@"; do
 done
 git -C /repo checkout -- .
 python3 tools/translate.py
+rm -rf evidence && cp -r /tmp/vwork/evidence.keep evidence
 git -C /repo status --short
